@@ -96,13 +96,12 @@ class YAMLPath:
         if not isinstance(other, (YAMLPath, str)):
             return False
 
-        equiv_this = YAMLPath(self)
-        equiv_this.separator = PathSeparators.FSLASH
-        cmp_this = str(equiv_this)
-
-        equiv_that = YAMLPath(other)
-        equiv_that.separator = PathSeparators.FSLASH
-        cmp_that = str(equiv_that)
+        # Compare the fully parsed (escaped) segments so that the notation,
+        # redundant escapes, and demarcation style are all irrelevant
+        cmp_this = YAMLPath._stringify_yamlpath_segments(
+            YAMLPath(self).escaped, PathSeparators.FSLASH)
+        cmp_that = YAMLPath._stringify_yamlpath_segments(
+            YAMLPath(other).escaped, PathSeparators.FSLASH)
 
         return cmp_this == cmp_that
 
